@@ -80,6 +80,7 @@ class Evaluator:
         self.steps = 0
         self.max_steps = max_steps
         self.yields = []
+        self._modconsts = {}
 
     # -- calling repo functions -------------------------------------------------
     def call(self, finfo, args, kwargs=None, self_obj=None):
@@ -301,6 +302,13 @@ class Evaluator:
             tgt = self.prog.resolve_name(fi.module, e.id)
             if tgt is not None:
                 return tgt
+            if e.id in fi.module.assigns:
+                # module level constant / table: evaluated in module scope (memoised)
+                key = (fi.module.name, e.id)
+                if key not in self._modconsts:
+                    holder = self.prog.funcs.get(next((k for k in self.prog.funcs if k.startswith(fi.module.name + ":")), None)) or fi
+                    self._modconsts[key] = self.expr(fi.module.assigns[e.id], {}, holder)
+                return self._modconsts[key]
             if e.id in _BUILTIN_TYPES:
                 return _BUILTIN_TYPES[e.id]
             if e.id == "itertools":
@@ -450,6 +458,8 @@ class Evaluator:
                 return v.fields[attr]
             raise Unsupported(f"attribute {attr} on {v.cls.name}")
         if isinstance(v, ClassInfo):
+            if attr == "__name__":
+                return v.name
             m = self.prog.lookup_method(v, attr)
             if m is not None:
                 return ("bound", m, None)
